@@ -473,6 +473,7 @@ def run(ctx):
 
     # the model-free scenarios first: they do not depend on the instrumentation below
     shared_plan(ctx, uberjob)
+    internal_names(ctx, uberjob)
     one_shot(ctx, uberjob)
     timing(ctx, uberjob)
     Plan._call, Plan.lit, rp.run_function_on_graph = w_call, w_lit, w_rfg
@@ -559,6 +560,35 @@ def shared_plan(ctx, uberjob):
         got = uberjob.run(plan, output=(g1, g2, g3), max_workers=workers, progress=None)
         if got != (["a", "b"], ["c", "d"], {"k": "d"}):
             ctx.fail("gather-temporaries", "plan.gather of three short-lived structures: run returned %r" % (got,), {"max_workers": workers})
+
+
+def internal_names(ctx, uberjob):
+    """a call receives its keyword arguments under their names - also names that the library's own helpers use (attempts,
+    exc_type, fn, f, args, kwargs, retry, node, self, value ...) - with and without retry"""
+    names = ["attempts", "exc_type", "fn", "f", "args", "kwargs", "retry", "node", "value", "plan", "scope", "stack_frame", "index", "name", "self", "call"]
+    for retry in (None, 2, 3):
+        for workers in (1, 3):
+            got = {}
+
+            def target(first, **kw):
+                got["kw"] = kw
+                got["first"] = first
+                return (first, tuple(kw.items()))
+            plan = uberjob.Plan()
+            x = plan.call(lambda: "sym")
+            kw = {}
+            for i, nm in enumerate(names):
+                kw[nm] = x if i % 3 == 0 else i
+            ctx.case(("internal-names", retry, workers))
+            try:
+                node = plan.call(target, x, **kw)
+                res = uberjob.run(plan, output=node, retry=retry, max_workers=workers, progress=None)
+            except BaseException as e:      # noqa
+                res = "raised %s: %s / %r" % (type(e).__name__, e, getattr(e, "__cause__", None))
+            want = ("sym", tuple((nm, "sym" if i % 3 == 0 else i) for i, nm in enumerate(names)))
+            if res != want:
+                ctx.fail("internal-names", "keyword arguments named like the library's internals, retry=%r: the call received/returned %r, direct evaluation gives %r"
+                         % (retry, res, want), {"retry": retry, "max_workers": workers})
 
 
 def one_shot(ctx, uberjob):
